@@ -267,6 +267,49 @@ def line_tag(dflat, tflat):
     return "+".join(sorted(set(tags))) or "valid"
 
 
+# "Design equivalences": operand spellings AsmJit accepts on purpose although the architecture (database / llvm-mc) spells them
+# differently.  A rejected line that the monitor accepts after ONE of these respellings gets the stable key
+# `enc:<Class>:design:<rule>` (open findings, kept by design); every other failure keeps its exact key, so nothing else hides behind them.
+def design_respellings(line, name, name2ids):
+    w = line.split()
+    out = []
+
+    def rebuild(toks, inst=None):
+        return " ".join(w[:2] + [str(inst) if inst is not None else w[2]] + [w[3]] + toks)
+
+    toks = w[4:]
+    # N1: an X index register with UXTW/SXTW stands for the W register of the same number (the test-suite relies on it)
+    n1 = []
+    for t in toks:
+        if t[0] == "m" and t[:2] != "ml":
+            a = t[1:].split(".")
+            if a[2] == "6" and a[4] in ("8", "12"):
+                a[2] = "5"
+                t = "m" + ".".join(a)
+        n1.append(t)
+    if n1 != toks:
+        out.append(("x-index-with-word-extend", rebuild(n1)))
+    # N2: a 64-bit vector with D elements (v.1d) stands for the scalar D register
+    n2 = [("r10." + t.split(".")[1]) if (t[0] == "r" and t.split(".")[0] == "r10" and len(t.split(".")) == 3 and t.split(".")[2] == "4") else t for t in toks]
+    if n2 != toks:
+        out.append(("1d-as-scalar-d", rebuild(n2)))
+    # N3: a plain D / Q register stands for .8b / .16b in byte-wise vector instructions
+    n3 = [(t + ".1") if (t[0] == "r" and t.split(".")[0] in ("r10", "r11") and len(t.split(".")) == 2) else t for t in toks]
+    if n3 != toks:
+        out.append(("plain-dq-as-bytes", rebuild(n3)))
+    if name == "mov":
+        # N4: `mov Vd.T, Vn.T` with any arrangement is the byte-wise ORR alias
+        n4 = [(".".join(t.split(".")[:2]) + ".1") if (t[0] == "r" and t.split(".")[0] in ("r10", "r11") and len(t.split(".")) == 3) else t for t in toks]
+        if n4 != toks:
+            out.append(("mov-any-arrangement", rebuild(n4)))
+        # N5: `mov` with an element source is emitted as DUP (element) / UMOV
+        if len(toks) == 2 and len(toks[1].split(".")) == 4:
+            for alias in ("dup", "umov"):
+                for iid in name2ids.get(alias, []):
+                    out.append(("mov-as-" + alias, rebuild(toks, iid)))
+    return out
+
+
 def gen_ops(forms, name2ids, rng, tier):
     """emit lines for every database form of an implemented mnemonic"""
     ops = []
@@ -303,9 +346,13 @@ def gen_ops(forms, name2ids, rng, tier):
                         lines.setdefault(head + "".join(" " + t for t in toks), tag)
                 for _ in range(per_form_rand):
                     toks = []
+                    parts = []
                     for d, alts in cands:
-                        toks += rng.choice(alts) if alts and rng.random() < 0.6 else d
-                    lines.setdefault(head + "".join(" " + t for t in toks), "combo")
+                        a = rng.choice(alts) if alts and rng.random() < 0.6 else d
+                        toks += a
+                        if a != d:
+                            parts.append("opcount" if len(a) != len(d) else line_tag(d, a))
+                    lines.setdefault(head + "".join(" " + t for t in toks), "combo(" + ",".join(parts) + ")" if parts else "valid")
         for l in sorted(lines):
             if len(l.split()) <= 10:
                 ops.append(l)
@@ -372,6 +419,10 @@ def run(res):
         keep = sorted(rng.sample(range(len(ops)), 260000))
         ops = [ops[i] for i in keep]
         meta = [meta[i] for i in keep]
+    if len(ops) < 50000 or len({m[0] for m in meta}) < 1500:
+        res.violation("the sweep is (nearly) empty: %d lines for %d forms - translator or generator no longer understands the sources" % (
+            len(ops), len({m[0] for m in meta})), {"lines": len(ops)}, False, key="empty-sweep")
+        return
     impl, rc, err = run_sides(h, ops)
     if rc != 0 or len(impl) != len(ops):
         i, tail = vlib.locate_abort([str(h)], ops)
@@ -408,10 +459,11 @@ def run(res):
             continue
         modelled += 1
         if a != b:
-            if mon[i].startswith("BAD") and a.startswith("ok") and b.startswith("err"):
-                continue      # the model (repaired code) refuses what the monitor already reports as wrongly accepted: same defect
-            diffs.append(i)
+            diffs.append(i)       # every difference is reported (key "corr"); the model follows /repo as it is
 
+    if modelled < 20000 or len([1 for r in impl if r.startswith("ok")]) < 10000:
+        res.violation("the correspondence is not exercised: %d model lines, %d accepted lines" % (modelled, len([1 for r in impl if r.startswith("ok")])),
+                      {"model_lines": modelled}, False, key="empty-sweep")
     kinds = {}
     acc_by_class = {}
     for o, r, m in zip(ops, impl, mon):
@@ -458,14 +510,26 @@ def run(res):
             res.coverage["oracle_llvm_mc"] = {"compared": len(texts), "same_word": agree, "llvm_refuses_text": rejects,
                                               "SPEC-SUSPECT": len(differ), "samples": differ[:10]}
     if bad:
-        # one violation per failing class (stable key), each with a concrete line
+        # one violation per exact key (class : probe kind : verdict), each with a concrete line; lines that only differ from a
+        # described encoding by a documented design equivalence get the key of that equivalence (neighbourhood search, L3)
+        resp = {}
+        qlines = []
+        for i, m in bad:
+            if not impl[i].startswith("ok"):
+                continue
+            for rule, nl in design_respellings(ops[i], insts[int(ops[i].split()[2])]["name"], name2ids):
+                qlines.append("mon " + nl[5:] + " => " + impl[i])
+                resp.setdefault(i, []).append((rule, len(qlines) - 1))
+        qans = vlib.run_model("C02", qlines)[0] if qlines else []
         seen = {}
-        single = {classify_key(ops[i], insts, enc_names) for i, m in bad if meta[i][1] != "combo"}
         for i, m in bad:
             cls = classify_key(ops[i], insts, enc_names)
-            if meta[i][1] == "combo" and cls in single:
-                continue          # random combination in a class that already has a one-operand witness
-            key = "enc:" + cls + ":" + meta[i][1]
+            why = m.split()[1] if m.startswith("BAD") and len(m.split()) > 1 else m.split()[0]
+            key = "enc:" + cls + ":" + meta[i][1] + ":" + why
+            for rule, qi in resp.get(i, []):
+                if qi < len(qans) and qans[qi].startswith("good"):
+                    key = "enc:" + cls + ":design:" + rule
+                    break
             seen.setdefault(key, []).append((i, m))
         for key, lst in sorted(seen.items()):
             i, m = lst[0]
